@@ -30,6 +30,11 @@ def make_program(seed, idx, profile=None, ncalls=40, lang="c", prog_fix=None, **
     prog = g.program()
     if prog_fix:
         prog_fix(prog)
+    return finish_program(prog, seed, idx, ncalls, lang)
+
+
+def finish_program(prog, seed, idx, ncalls=40, lang="c"):
+    """adds the id accessor to every opaque, assigns ABI names and builds the call script"""
     for t in prog.types():
         if t.kind == "opaque":
             m = spec.Method("vf_id", ("ref", None), [], ("prim", "u32"))
@@ -515,6 +520,12 @@ def run_js_program(seed, idx, tag, profile=None, ncalls=30, keep=False, rewrap=F
     prof.update(JS_E2E_PROFILE)
     prof.update(profile or {})
     prog, sc = make_program(seed, idx, prof, ncalls, lang="js", prog_fix=avoid_f23)
+    return run_js_prepared(prog, sc, idx, tag, keep=keep, rewrap=rewrap)
+
+
+def run_js_prepared(prog, sc, idx, tag, keep=False, rewrap=False):
+    import emit_js
+    import wasm32
     d = toolrun.fresh_dir(toolrun.workdir(tag, "p%d" % idx))
     res = {"idx": idx, "dir": d, "prog": prog, "script": sc, "calls": sum(1 for s in sc.steps if s["kind"] == "call"), "events": len(sc.expected), "lang": "js",
            "sigs": [spec.method_sig(t, m) for t, m in prog.methods() if m.name not in ("make", "vf_id")]}
@@ -568,13 +579,20 @@ def run_js_program(seed, idx, tag, profile=None, ncalls=30, keep=False, rewrap=F
     return res
 
 
-def js_e2e_leg(chk, seed, n, tag, profile=None, rewrap=False, ncalls=30, only=None, label="js-e2e"):
+def js_e2e_leg(chk, seed, n, tag, profile=None, rewrap=False, ncalls=30, only=None, label="js-e2e", prepared=None):
     """Runs n generated bridges through their generated JS (spec ABI) on a real wasm32 module; reports through chk.
     only(res) -> bool may restrict which disagreements belong to the calling property. Returns stats."""
     import wasm32
     set_pointer_width(32)
     wasm32.e2e_artifacts()
-    results = pmap(lambda i: run_js_program(seed, i, tag, profile=profile, ncalls=ncalls, rewrap=rewrap), range(n))
+    if prepared:
+        # prepared(i) -> Program built by the caller (after the pointer width switch): finish it and run it
+        def one(i):
+            prog, sc = finish_program(prepared(i), seed, i, ncalls, lang="js")
+            return run_js_prepared(prog, sc, i, tag, rewrap=rewrap)
+        results = pmap(one, range(n))
+    else:
+        results = pmap(lambda i: run_js_program(seed, i, tag, profile=profile, ncalls=ncalls, rewrap=rewrap), range(n))
     st = {"programs": 0, "calls": 0, "events": 0, "skipped": 0, "finalizer_exceptions": 0, "live_blocks_at_end": 0, "distinct_shapes": set()}
     for r in results:
         if r["status"] == "skip":
